@@ -615,6 +615,20 @@ func actxImportAnalyzer(c *Ctx) []Obligation {
 func actxImportCompiler(c *Ctx) []Obligation {
 	p := c.Pkg("homescript/compiler")
 	info := p.TypesInfo
+	// a local that is a plain copy of another variable (`moduleName, module := name, analyzed`,
+	// assigned exactly once) stands for that variable
+	alias := actxCopyAliases(p)
+	use := func(id *ast.Ident) types.Object {
+		o := info.Uses[id]
+		for i := 0; i < 6 && o != nil; i++ {
+			n, ok := alias[o]
+			if !ok {
+				break
+			}
+			o = n
+		}
+		return o
+	}
 	var out []Obligation
 	// anchor: the Compiler method taking the whole program (map[string]AnalyzedProgram)
 	// When the lowering is split over several such methods, the anchor is the one the others are
@@ -688,7 +702,7 @@ func actxImportCompiler(c *Ctx) []Obligation {
 	isParam := func(id *ast.Ident) bool {
 		for _, f := range curDecl.Type.Params.List {
 			for _, nm := range f.Names {
-				if info.Defs[nm] != nil && info.Defs[nm] == info.Uses[id] {
+				if info.Defs[nm] != nil && info.Defs[nm] == use(id) {
 					return true
 				}
 			}
@@ -702,7 +716,7 @@ func actxImportCompiler(c *Ctx) []Obligation {
 			return true
 		}
 		id, ok := ast.Unparen(rs.X).(*ast.Ident)
-		if !ok || info.Uses[id] != progParam {
+		if !ok || use(id) != progParam {
 			return true
 		}
 		kid, _ := rs.Key.(*ast.Ident)
@@ -728,8 +742,8 @@ func actxImportCompiler(c *Ctx) []Obligation {
 				cid, ok1 := ast.Unparen(ix.X).(*ast.Ident)
 				key, ok2 := ast.Unparen(ix.Index).(*ast.Ident)
 				val, ok3 := ast.Unparen(as.Rhs[0]).(*ast.Ident)
-				if ok1 && ok2 && ok3 && info.Uses[key] == kobj && initVars[info.Uses[val]] {
-					perModule[info.Uses[cid]] = true
+				if ok1 && ok2 && ok3 && use(key) == kobj && initVars[use(val)] {
+					perModule[use(cid)] = true
 				}
 			}
 		}
@@ -764,7 +778,7 @@ func actxImportCompiler(c *Ctx) []Obligation {
 			var loop *ast.RangeStmt
 			for i := len(stack) - 1; i >= 0; i-- {
 				if rs, ok := stack[i].(*ast.RangeStmt); ok && tid != nil {
-					if vid, ok := rs.Value.(*ast.Ident); ok && info.Defs[vid] == info.Uses[tid] {
+					if vid, ok := rs.Value.(*ast.Ident); ok && info.Defs[vid] == use(tid) {
 						loop = rs
 						break
 					}
@@ -776,7 +790,7 @@ func actxImportCompiler(c *Ctx) []Obligation {
 				var ix *ast.IndexExpr
 				ast.Inspect(body, func(x ast.Node) bool {
 					if as, ok := x.(*ast.AssignStmt); ok && len(as.Rhs) == 1 && len(as.Lhs) >= 1 {
-						if lid, ok := as.Lhs[0].(*ast.Ident); ok && (info.Defs[lid] == info.Uses[tid] || info.Uses[lid] == info.Uses[tid]) {
+						if lid, ok := as.Lhs[0].(*ast.Ident); ok && (info.Defs[lid] == use(tid) || use(lid) == use(tid)) {
 							if e, ok := ast.Unparen(as.Rhs[0]).(*ast.IndexExpr); ok {
 								ix = e
 							}
@@ -786,7 +800,7 @@ func actxImportCompiler(c *Ctx) []Obligation {
 				})
 				if ix != nil {
 					cid, _ := ast.Unparen(ix.X).(*ast.Ident)
-					if cid == nil || !perModule[info.Uses[cid]] {
+					if cid == nil || !perModule[use(cid)] {
 						lookupWhy = "the call target is looked up in " + exprStr(ix.X) + ", which does not hold one init function per module"
 					} else {
 						// which loop produces the key?
@@ -799,7 +813,7 @@ func actxImportCompiler(c *Ctx) []Obligation {
 							ast.Inspect(ix.Index, func(y ast.Node) bool {
 								if id, ok := y.(*ast.Ident); ok {
 									for _, kv := range []ast.Expr{rs.Key, rs.Value} {
-										if kid, ok := kv.(*ast.Ident); ok && info.Defs[kid] != nil && info.Defs[kid] == info.Uses[id] {
+										if kid, ok := kv.(*ast.Ident); ok && info.Defs[kid] != nil && info.Defs[kid] == use(id) {
 											keyLoop = rs
 										}
 									}
@@ -812,7 +826,7 @@ func actxImportCompiler(c *Ctx) []Obligation {
 							if !ok {
 								return false
 							}
-							o := info.Uses[id]
+							o := use(id)
 							if o == progParam || perModule[o] {
 								return true
 							}
@@ -824,15 +838,15 @@ func actxImportCompiler(c *Ctx) []Obligation {
 									return true
 								}
 								rid, ok := ast.Unparen(rs.X).(*ast.Ident)
-								if !ok || !(info.Uses[rid] == progParam || perModule[info.Uses[rid]]) {
+								if !ok || !(use(rid) == progParam || perModule[use(rid)]) {
 									return true
 								}
 								kid, _ := rs.Key.(*ast.Ident)
 								for _, st := range rs.Body.List {
 									if as, ok := st.(*ast.AssignStmt); ok && len(as.Lhs) == 1 && len(as.Rhs) == 1 {
-										if lid, ok := as.Lhs[0].(*ast.Ident); ok && info.Uses[lid] == o && kid != nil {
+										if lid, ok := as.Lhs[0].(*ast.Ident); ok && use(lid) == o && kid != nil {
 											if call, ok := as.Rhs[0].(*ast.CallExpr); ok && len(call.Args) == 2 {
-												if aid, ok := call.Args[1].(*ast.Ident); ok && info.Uses[aid] == info.Defs[kid] {
+												if aid, ok := call.Args[1].(*ast.Ident); ok && use(aid) == info.Defs[kid] {
 													okAll = true
 												}
 											}
@@ -864,7 +878,7 @@ func actxImportCompiler(c *Ctx) []Obligation {
 				ob.Status, ob.Detail = Violated, "the call target "+exprStr(ce.Args[1])+" is neither the value variable of an enclosing range loop nor looked up in the per-module init table"
 			default:
 				cid, _ := ast.Unparen(loop.X).(*ast.Ident)
-				if cid == nil || !perModule[info.Uses[cid]] {
+				if cid == nil || !perModule[use(cid)] {
 					ob.Status = Violated
 					ob.Detail = fmt.Sprintf("the loop that emits the @init calls ranges over %s, which does not hold one init function per module of the program (modules reachable only transitively, or not imported by the entry module, are never initialised)", exprStr(loop.X))
 				} else {
@@ -894,7 +908,7 @@ func actxImportCompiler(c *Ctx) []Obligation {
 							y1, _ := ast.Unparen(be.Y).(*ast.Ident)
 							// the loop key compared with a parameter of the method (the entry module's name)
 							keyVsParam := x1 != nil && y1 != nil &&
-								((info.Uses[x1] == info.Defs[kid] && isParam(y1)) || (info.Uses[y1] == info.Defs[kid] && isParam(x1)))
+								((use(x1) == info.Defs[kid] && isParam(y1)) || (use(y1) == info.Defs[kid] && isParam(x1)))
 							switch {
 							case keyVsParam && be.Op == token.EQL && hasJump && !inBody:
 								okCond = true // `if key == entry { continue }` before the emission
@@ -934,7 +948,7 @@ func actxImportCompiler(c *Ctx) []Obligation {
 		for _, fl := range gd.Type.Params.List {
 			for _, nm := range fl.Names {
 				if idx < len(ce.Args) {
-					if id, ok := ast.Unparen(ce.Args[idx]).(*ast.Ident); ok && perModule[info.Uses[id]] {
+					if id, ok := ast.Unparen(ce.Args[idx]).(*ast.Ident); ok && perModule[use(id)] {
 						perModule[info.Defs[nm]] = true
 						handed = true
 					}
@@ -1375,4 +1389,78 @@ func actxPubAtom(p *packages.Package, info *types.Info, scope ast.Node, e ast.Ex
 		}
 	}
 	return nil, false, false
+}
+
+// actxCopyAliases: local variables of the package's functions that are
+// assigned exactly once, by a plain copy of another variable (positionally in
+// a parallel assignment); the map leads from the copy to its source.
+func actxCopyAliases(p *packages.Package) map[types.Object]types.Object {
+	info := p.TypesInfo
+	count := map[types.Object]int{}
+	src := map[types.Object]types.Object{}
+	for _, fd := range AllFuncDecls(p) {
+		ast.Inspect(fd.Body, func(n ast.Node) bool {
+			switch x := n.(type) {
+			case *ast.AssignStmt:
+				for i, l := range x.Lhs {
+					id, ok := l.(*ast.Ident)
+					if !ok || id.Name == "_" {
+						continue
+					}
+					o := info.Defs[id]
+					if o == nil {
+						o = info.Uses[id]
+					}
+					if o == nil {
+						continue
+					}
+					count[o]++
+					if len(x.Lhs) == len(x.Rhs) && (x.Tok == token.DEFINE || x.Tok == token.ASSIGN) {
+						if rid, ok := ast.Unparen(x.Rhs[i]).(*ast.Ident); ok {
+							if r, isVar := info.Uses[rid].(*types.Var); isVar && !r.IsField() {
+								src[o] = r
+								continue
+							}
+						}
+					}
+					count[o]++ // not a plain copy
+				}
+			case *ast.IncDecStmt:
+				if id, ok := x.X.(*ast.Ident); ok {
+					if o := info.Uses[id]; o != nil {
+						count[o] += 2
+					}
+				}
+			case *ast.RangeStmt:
+				if x.Tok == token.ASSIGN {
+					for _, e := range []ast.Expr{x.Key, x.Value} {
+						if id, ok := e.(*ast.Ident); ok {
+							if o := info.Uses[id]; o != nil {
+								count[o] += 2
+							}
+						}
+					}
+				}
+			case *ast.UnaryExpr:
+				if x.Op == token.AND {
+					if id, ok := ast.Unparen(x.X).(*ast.Ident); ok {
+						if o := info.Uses[id]; o != nil {
+							count[o] += 2 // address taken: may be written elsewhere
+						}
+					}
+				}
+			}
+			return true
+		})
+	}
+	out := map[types.Object]types.Object{}
+	for o, r := range src {
+		// the copy is written once and its source is never reassigned after being declared
+		if count[o] == 1 && count[r] <= 1 {
+			if v, ok := o.(*types.Var); ok && !v.IsField() && v.Parent() != nil && v.Parent() != v.Pkg().Scope() {
+				out[o] = r
+			}
+		}
+	}
+	return out
 }
